@@ -243,6 +243,7 @@ type AuthnReq struct {
 	ForceAuthn, IsPassive     string
 	ProviderName, Consent     string
 	NameIDPolicy              bool
+	AllowCreate               string // lexical form of NameIDPolicy/@AllowCreate ("" = "true"); may be one no xs:boolean has
 	NameIDFormat              string
 	Conditions                bool
 	NotBefore, NotOnOrAfter   string
@@ -294,7 +295,11 @@ func (a *AuthnReq) Node() *Node {
 		root.Add(s.a("Subject").Add(s.a("NameID").SetText(a.Subject)))
 	}
 	if a.NameIDPolicy {
-		np := s.p("NameIDPolicy").Set("AllowCreate", "true")
+		ac := "true"
+		if a.AllowCreate != "" {
+			ac = a.AllowCreate
+		}
+		np := s.p("NameIDPolicy").Set("AllowCreate", ac)
 		if a.NameIDFormat != "" {
 			np.Set("Format", a.NameIDFormat)
 		}
